@@ -22,6 +22,7 @@ def _build_native(element, rule_name, content, attrs, children):
     from metapype.model.node import Node
     Node.store.clear()
     n = Node(element or emlctx.element_for_rule(rule_name) or "x", id="n")
+    n.nsmap = {"p": "urn:p", "xsi": "http://www.w3.org/2001/XMLSchema-instance"}
     n._content = content
     for k, v in attrs.items():
         n.add_attribute(k, v)
